@@ -148,12 +148,13 @@ ALL = ['C%02d' % k for k in range(1, 21)]
 
 def lane_main(lane, ids, stage2=False):
     ms = {m['id']: m for m in json.load(open(os.path.join(OUT, 'mutants.json')))}
-    outp = os.path.join(OUT, ('results2.lane%d.jsonl' if stage2 else 'results.lane%d.jsonl') % lane)
+    outp = os.path.join(OUT, ('results2.lane%d.jsonl' if stage2 is True else 'results3.lane%d.jsonl' if stage2 == 'rerun'
+                              else 'results.lane%d.jsonl') % lane)
     with open(outp, 'a') as f:
         for i in ids:
             try:
                 m = ms[i]
-                if stage2:          # survivors of their anchoring checks: every other property's check
+                if stage2 is True:          # survivors of their anchoring checks: every other property's check
                     m = dict(m, props=[p for p in ALL if p not in m['props']])
                 r = run_one(m, lane)
             except Exception as ex:
@@ -175,7 +176,11 @@ def results(prefix='results.lane'):
 def run(lanes, stage2=False):
     ms = json.load(open(os.path.join(OUT, 'mutants.json')))
     done = results()
-    if stage2:
+    if stage2 == 'rerun':       # survivors of both stages, again, on the machinery as it is now (anchoring checks)
+        done2, done3 = results('results2.lane'), results('results3.lane')
+        todo = [i for i, r in sorted(done.items()) if r['outcome'] == 'survived' and i not in done3
+                and done2.get(i, {}).get('outcome') not in ('concrete',)]
+    elif stage2:
         done2 = results('results2.lane')
         todo = [i for i, r in sorted(done.items()) if r['outcome'] == 'survived' and i not in done2]
     else:
@@ -189,7 +194,8 @@ def run(lanes, stage2=False):
             subprocess.run(['cp', '-r', '/repo', d + '/repo'], check=True)
         subprocess.run(['git', '-C', d + '/repo', 'checkout', '--', '.'], check=True)
         ids = todo[k::lanes]
-        procs.append(subprocess.Popen([sys.executable, __file__, 'lane2' if stage2 else 'lane', str(k)] + ids))
+        procs.append(subprocess.Popen([sys.executable, __file__, 'lane3' if stage2 == 'rerun' else 'lane2' if stage2
+                                       else 'lane', str(k)] + ids))
     for p in procs:
         p.wait()
 
@@ -201,6 +207,10 @@ def report():
         if i in rs and rs[i]['outcome'] == 'survived':
             rs[i] = dict(rs[i], checks=dict(rs[i].get('checks', {}), **r2.get('checks', {})),
                          outcome={'concrete': 'concrete-elsewhere', 'broken-only': 'broken-elsewhere'}.get(r2['outcome'], 'survived-all'))
+    for i, r3 in results('results3.lane').items():
+        if i in rs and rs[i]['outcome'] in ('survived', 'survived-all', 'broken-elsewhere') and r3['outcome'] in ('concrete', 'broken-only'):
+            rs[i] = dict(rs[i], checks=dict(rs[i].get('checks', {}), **r3.get('checks', {})),
+                         outcome='concrete-after-strengthening' if r3['outcome'] == 'concrete' else 'broken-after-strengthening')
     byf = {}
     for i, r in rs.items():
         f = ms[i]['file'] if i in ms else '?'
@@ -229,5 +239,9 @@ if __name__ == '__main__':
         lane_main(int(sys.argv[2]), sys.argv[3:], True)
     elif cmd == 'stage2':
         run(int(sys.argv[2]), True)
+    elif cmd == 'lane3':
+        lane_main(int(sys.argv[2]), sys.argv[3:], 'rerun')
+    elif cmd == 'rerun':
+        run(int(sys.argv[2]), 'rerun')
     elif cmd == 'report':
         report()
